@@ -768,7 +768,8 @@ class Lower:
     def stub_expand(self, st, objp, argl, n):
         """stub given as {'expr': 'template with $this $0 $1'}"""
         x = st['expr']
-        if st.get('literal_only') and not all(a.strip().startswith('"') for a in argl):
+        lo = st.get('literal_only')
+        if lo and not all(a.strip().startswith('"') for i, a in enumerate(argl) if lo is True or i in lo):
             raise Abort('stub %r is only valid for string literals (in %s)' % (x, self.cur_fn))
         if objp is not None:
             x = x.replace('$this', objp)
